@@ -3,6 +3,7 @@ package main
 // C17 — UpdateDecoder reports errors with the RFC 7606 approach they require.
 
 import (
+	"go/types"
 	"fmt"
 	"strings"
 
@@ -20,6 +21,7 @@ func checkC17(c *Check) {
 	c.bitmapAgreement("C17.3 seen-bitmap-agreement")
 	c.decoderStateless("C17.3 decoder-stateless")
 	c.notificationFromErr("C17.4 severity-mapping")
+	c.errorClassesOpaque("C17.4 error-classes-opaque")
 	_ = p
 }
 
@@ -290,7 +292,7 @@ func (c *Check) errorAccumulation(rule string) {
 func (c *Check) mandatoryAttrs(rule string) {
 	p := c.P
 	fn := p.Fn("UpdateDecoder.decodePathAttrs")
-	if fn == nil || len(fn.Params) != 4 {
+	if fn == nil || !c.sig(rule, fn, 4) {
 		return
 	}
 	origin, aspath, mpReach := p.MustConst("PATH_ATTR_ORIGIN"), p.MustConst("PATH_ATTR_AS_PATH"), p.MustConst("PATH_ATTR_MP_REACH_NLRI")
@@ -645,4 +647,35 @@ func (c *Check) notificationFromErr(rule string) {
 			c.require(okc, rule, t+".AsSessionReset", fmt.Sprintf("embedded notification present=%d", v), p.Pos(g.Pos()), "returns the embedded notification, or a generic UPDATE Message Error")
 		}
 	}
+}
+
+// errorClassesOpaque: Decode decides "session reset, stop decoding" with
+// errors.As(err, **Notification), and UpdateNotificationFromErr ranks classes
+// by walking Unwrap() chains. Both rely on the RFC 7606 error types being
+// leaves: a treat-as-withdraw or attribute-discard error that exposed its
+// fallback *Notification through Unwrap/As/Is would be taken for a session
+// reset (decoding stops before the NLRI callback; the strongest class of the
+// returned tree changes). The method sets are therefore pinned.
+func (c *Check) errorClassesOpaque(rule string) {
+	p := c.P
+	n := 0
+	for _, tn := range []string{"TreatAsWithdrawUpdateErr", "AttrDiscardUpdateErr", "Notification", "notificationError"} {
+		named := p.Named(tn)
+		if named == nil {
+			continue
+		}
+		ms := types.NewMethodSet(types.NewPointer(named))
+		for i := 0; i < ms.Len(); i++ {
+			m := ms.At(i).Obj().Name()
+			n++
+			switch m {
+			case "Unwrap", "As", "Is":
+				c.fail(rule, tn+"."+m, "error type exposes "+m+"()", p.Pos(ms.At(i).Obj().Pos()),
+					"errors.As / errors.Is / Unwrap walks must stop at this type: its class is decided by its own type only")
+			default:
+				c.ok(rule, tn+"."+m, "method of an error class", "-", "not an unwrapping hook")
+			}
+		}
+	}
+	c.floor(rule, n, 4, "methods of the UPDATE error classes")
 }
